@@ -1,6 +1,7 @@
 package main
 
 import (
+	"go/ast"
 	"fmt"
 	"go/types"
 	"strings"
@@ -89,6 +90,16 @@ func (f *Frame) execCall(v ssa.Value, c *ssa.CallCommon, st *State) {
 			}
 			if _, has := f.vc.db.Contracts[pn+"$"+par.Name()]; has {
 				name = pn + "$" + par.Name()
+			}
+		} else if ln := localNameOf(f.fn, c.Value); ln != "" {
+			// call through a function value held in a LOCAL variable (e.g. the querier a
+			// router returned): contract "<function>$<variable>", same form as for parameters
+			pn := canonName(f.fn)
+			if f.fn.Origin() != nil {
+				pn = canonName(f.fn.Origin())
+			}
+			if _, has := f.vc.db.Contracts[pn+"$"+ln]; has {
+				name = pn + "$" + ln
 			}
 		}
 	}
@@ -717,4 +728,19 @@ func (vc *VC) applyGlobalSpecs(f *Frame, g *ssa.Global, val Term, st *State) {
 		vc.assume(t)
 		vc.assumed = append(vc.assumed, fmt.Sprintf("global %s: %s (package-level variable assumed never reassigned)", name, gs.Src))
 	}
+}
+
+// localNameOf returns the source name of the local variable that holds SSA value v (from the
+// debug references of the enclosing function), or "".
+func localNameOf(fn *ssa.Function, v ssa.Value) string {
+	for _, b := range fn.Blocks {
+		for _, in := range b.Instrs {
+			if d, ok := in.(*ssa.DebugRef); ok && d.X == v && !d.IsAddr {
+				if id, ok := d.Expr.(*ast.Ident); ok {
+					return id.Name
+				}
+			}
+		}
+	}
+	return ""
 }
